@@ -1,6 +1,69 @@
-"""llgo-compiled test programs shared by several properties (second binding)."""
+"""llgo-compiled test programs shared by several properties (second binding: real threads, real compiler)."""
+import os
+import shutil
+from concurrent.futures import ThreadPoolExecutor
+
 from . import common as C
+
+PROGS = os.path.join(C.VERIF, "harness", "progs")
+
+
+def reference_output(moddir, rundir, name, args=(), stdin=None, timeout=120):
+    """build and run with the reference Go toolchain"""
+    exe = os.path.join(rundir, name + ".ref")
+    ok, out = C.go_build(moddir, exe)
+    if not ok:
+        raise C.Undecided("reference toolchain cannot build %s:\n%s" % (name, out))
+    st, so, se = C.run_exe(exe, args=args, stdin=stdin, timeout=timeout, merge=True)
+    return st, so, se
+
+
+def llgo_exe(moddir, rundir, name, opt="O0", tags=""):
+    exe = os.path.join(rundir, "%s.%s%s" % (name, opt, "." + tags if tags else ""))
+    ok, out = C.llgo_build(moddir, exe, opt=opt, tags=tags, rundir=rundir)
+    if not ok:
+        return None, out
+    return exe, out
+
+
+def copy_prog(name, rundir):
+    d = os.path.join(rundir, "prog-" + name)
+    if not os.path.isdir(d):
+        shutil.copytree(os.path.join(PROGS, name), d)
+    return d
 
 
 def run_sync_programs(chk, thorough, sd):
-    pass
+    rd = chk.rd.path
+    d = copy_prog("syncstress", rd)
+    rst, rout, rerr = reference_output(d, rd, "syncstress")
+    if rst != 0 or "done" not in rout:
+        raise C.Undecided("reference run of syncstress failed: %s %s" % (rst, rerr[-500:]))
+    configs = [("O0", "")] + ([("O2", ""), ("O0", "nogc")] if thorough else [])
+    runs = 120 if thorough else 12
+    total = 0
+    for opt, tags in configs:
+        exe, out = llgo_exe(d, rd, "syncstress", opt, tags)
+        if exe is None:
+            if opt != "O0":
+                chk.cov.setdefault("skipped_configs", []).append("%s/%s: does not build here (%s)" % (opt, tags, out[-200:]))
+                continue
+            raise C.Undecided("llgo cannot build syncstress:\n" + out[-3000:])
+
+        def one(i):
+            return C.run_exe(exe, timeout=120, merge=True)
+        with ThreadPoolExecutor(max_workers=4) as ex:
+            results = list(ex.map(one, range(runs)))
+        for st, so, se in results:
+            total += 1
+            if st != 0 or so != rout:
+                bad = [l for l in so.splitlines() if l not in rout.splitlines()]
+                first = bad[0].split(":")[0] if bad else "status"
+                chk.reject("syncstress:%s:%s" % (opt + tags, first),
+                           "compiled sync/atomic/go-statement program deviates from the schedule-independent expected output "
+                           "(status %s, differing lines %s, stderr %s)" % (st, bad[:3], se[-300:]),
+                           {"config": opt + "/" + tags, "status": st, "stdout": so, "expected": rout, "stderr": se[-2000:]})
+                break
+    chk.cov["compiled_program_runs"] = chk.cov.get("compiled_program_runs", 0) + total
+    chk.cov["evaluations"] += total
+    chk.sample({"compiled_program": "syncstress", "expected_lines": rout.splitlines()[:4]})
